@@ -69,7 +69,8 @@ def gen_string(rng):
 
 
 POSITIONS = ["meta_alias", "ann_alias", "cfg_alias", "typeddict_key", "discr_class", "discr_annotated", "forbid_keys",
-             "literal_str", "literal_bytes", "enum_value", "nt_as_dict_alias", "union_field_alias"]
+             "literal_str", "literal_bytes", "enum_value", "nt_as_dict_alias", "union_field_alias",
+             "generic_literal_arg", "literal_mixin_enum_member"]
 
 
 def run_case(seed, tier, rec, st):
@@ -355,6 +356,75 @@ def pos_literal_str(fam, rng, s, rec, det, facts):
         return False
     except Exception:
         pass
+    return True
+
+
+def pos_generic_literal_arg(fam, rng, s, rec, det, facts):
+    """the string as a Literal ARGUMENT of a generic dataclass specialisation (its rendered type name carries it):
+    every message path (non-mapping argument, missing / invalid field) must treat it as data."""
+    from mashumaro.codecs.basic import BasicDecoder
+    from mashumaro.exceptions import MissingField, InvalidFieldValue
+    mixin = "DataClassDictMixin, " if rng.random() < 0.6 else ""
+    kindb = rng.random() < 0.3
+    fam.module.LV = fam.module.SB if kindb else s
+    src = ("T = TypeVar('T')\n"
+           f"@dataclass\nclass Tagged({mixin}Generic[T]):\n    tag: T\n    n: int = 0\n"
+           "SPEC = Tagged[Literal[LV]]\n"
+           "@dataclass\nclass Holder(DataClassDictMixin):\n    x: SPEC\n    xs: List[SPEC] = field(default_factory=list)\n")
+    if not build(fam, src, rec, det, facts):
+        return False
+    m = fam.module
+    import base64
+    wire = base64.encodebytes(m.SB).decode() if kindb else s
+    dec = BasicDecoder(m.SPEC)
+    ok = True
+    r = m.Holder.from_dict({"x": {"tag": wire, "n": 1}, "xs": [{"tag": wire}]})
+    r2 = dec.decode({"tag": wire})
+    if r.x.tag != m.LV or r.xs[0].tag != m.LV or r2.tag != m.LV:
+        rec.violation("generic_literal_arg:value-not-preserved", dict(det, observed=common.short(r)), facts)
+        ok = False
+    for bad, exp in ((5, (ValueError, InvalidFieldValue)), ({"n": 1}, (MissingField, InvalidFieldValue)), ({"tag": wire, "n": "zz"}, (InvalidFieldValue,)),
+                     ({"tag": 12345}, (InvalidFieldValue,))):
+        for fn in (lambda b: m.Holder.from_dict({"x": b}), dec.decode, lambda b: m.Holder.from_dict({"x": {"tag": wire}, "xs": [b]})):
+            try:
+                fn(bad)
+                rec.violation("generic_literal_arg:invalid-input-accepted", dict(det, input=common.short(bad)), facts)
+                ok = False
+            except exp as e:
+                str(e)          # rendering the message must work too
+            except Exception as e:
+                rec.violation(f"generic_literal_arg:error-path:{type(e).__name__}", dict(det, input=common.short(bad), error=f"{type(e).__name__}: {e}"[:300]),
+                              dict(facts, exc=type(e).__name__))
+                ok = False
+    return ok
+
+
+def pos_literal_mixin_enum_member(fam, rng, s, rec, det, facts):
+    """Literal listing a member of an enum that is also a str / int (StrEnum, str-mixin Enum, IntEnum, IntFlag) whose
+    VALUE is the string: the member is an enum member first, not a plain constant to be spliced."""
+    from mashumaro.codecs.basic import BasicDecoder, BasicEncoder
+    base = rng.choice(["enum.StrEnum", "str, enum.Enum", "enum.IntEnum", "enum.IntFlag"])
+    is_str = "Str" in base or "str" in base
+    if is_str and s == "":
+        pass
+    fam.module.EV = s if is_str else (abs(hash(s)) % 7 + 1)
+    other = "'other-' + S" if is_str else "64"
+    src = (f"class ME({base}):\n    a = EV\n    b = {other}\n"
+           "LITE = Literal[ME.a, 'plain', 99]\n"
+           "@dataclass\nclass M(DataClassDictMixin):\n    v: LITE\n    w: LITE = 'plain'\n    u: Literal[ME.b] = ME.b\n")
+    if not build(fam, src, rec, det, facts):
+        return False
+    m = fam.module
+    wire = m.EV
+    r = m.M.from_dict({"v": wire})
+    out = m.M(m.ME.a).to_dict()
+    r2 = BasicDecoder(m.LITE).decode(wire)
+    o2 = BasicEncoder(m.LITE).encode(m.ME.a)
+    good = (r.v is m.ME.a and r2 is m.ME.a and out["v"] == wire and type(out["v"]) is type(wire) and o2 == wire and type(o2) is type(wire)
+            and out["u"] == m.ME.b.value and type(out["u"]) is type(m.ME.b.value))
+    if not good:
+        rec.violation("literal_mixin_enum_member:member-or-value-not-preserved", dict(det, base=base, observed=[common.short(x) for x in (r, out, r2, o2)]), facts)
+        return False
     return True
 
 
